@@ -679,3 +679,139 @@ Proof.
   unfold enabled. destruct (gstep_cases s c) as [(E & _ & _)|(x0 & st' & x' & o & _ & _ & E)]; [auto|].
   rewrite E. discriminate.
 Qed.
+
+(* ------------------------------------------------------------------ termination under round-robin *)
+Lemma istep_measure st x r st' x' o : istep st x r = Some (st', x', o) ->
+  (forall q, q <> r -> i_pcs x' q = i_pcs x q) /\
+  (pc_measure (i_W x) (i_pcs x' r) < pc_measure (i_W x) (i_pcs x r))%nat.
+Proof.
+  intros Hs. unfold istep in Hs. destruct (r <? i_W x)%nat eqn:E; cbn [negb] in Hs; [|discriminate]. clear E.
+  destruct (i_pcs x r) eqn:Hpc; istep_cases Hs.
+  all: repeat match goal with H : (_ <? _)%nat = true |- _ => apply Nat.ltb_lt in H
+                         | H : (_ <? _)%nat = false |- _ => apply Nat.ltb_ge in H end.
+  all: split; [intros q Hq; cbn [i_pcs set_pc set_iodone set_meta];
+               destruct (Nat.eqb_spec q r); [contradiction|reflexivity]|].
+  all: cbn [i_pcs set_pc set_iodone set_meta]; rewrite Nat.eqb_refl; cbn [pc_measure]; lia.
+Qed.
+
+Lemma list_sum_map_le {A} (f g : A -> nat) l : (forall q, In q l -> (f q <= g q)%nat) ->
+  (list_sum (map f l) <= list_sum (map g l))%nat.
+Proof.
+  unfold list_sum. induction l as [|a l IH]; intros H; cbn [map fold_right]; [lia|].
+  pose proof (H a (or_introl eq_refl)). specialize (IH (fun q Hq => H q (or_intror Hq))). lia.
+Qed.
+
+Lemma list_sum_map_lt {A} (f g : A -> nat) l r : (forall q, In q l -> (f q <= g q)%nat) ->
+  In r l -> (f r < g r)%nat -> (list_sum (map f l) < list_sum (map g l))%nat.
+Proof.
+  induction l as [|a l IH]; intros H Hin Hlt; [destruct Hin|].
+  pose proof (H a (or_introl eq_refl)).
+  pose proof (list_sum_map_le f g l (fun q Hq => H q (or_intror Hq))).
+  unfold list_sum in *; cbn [map fold_right].
+  destruct Hin as [->|Hin]; [lia|]. specialize (IH (fun q Hq => H q (or_intror Hq)) Hin Hlt). lia.
+Qed.
+
+Lemma inst_measure_step st x r st' x' o : istep st x r = Some (st', x', o) ->
+  (inst_measure x' < inst_measure x)%nat.
+Proof.
+  intros Hs. pose proof (istep_frame _ _ _ _ _ _ Hs) as (_ & FW & _ & _ & Hr & _).
+  destruct (istep_measure _ _ _ _ _ _ Hs) as [Hoth Hlt].
+  unfold inst_measure. rewrite FW. apply (list_sum_map_lt _ _ _ r).
+  - intros q _. destruct (Nat.eq_dec q r) as [->|Hq]; [lia|]. rewrite (Hoth q Hq). lia.
+  - apply in_seq. lia.
+  - exact Hlt.
+Qed.
+
+Lemma list_sum_upd_lt {A} (f : A -> nat) l i x x' : nth_error l i = Some x -> (f x' < f x)%nat ->
+  (list_sum (map f (upd l i x')) < list_sum (map f l))%nat.
+Proof.
+  unfold list_sum. revert i. induction l as [|a l IH]; intros [|i] Hn Hlt; cbn [nth_error upd map fold_right] in *; try discriminate.
+  - inversion Hn. subst. lia.
+  - specialize (IH i Hn Hlt). lia.
+Qed.
+
+Lemma gstep_measure_lt s c : enabled s c = true -> (gmeasure (fst (gstep s c)) < gmeasure s)%nat.
+Proof.
+  unfold enabled. destruct (gstep_cases s c) as [(_ & E & _)|(x & st' & x' & o & Hn & Hs & E)].
+  - rewrite E. discriminate.
+  - intros _. rewrite E. unfold gmeasure. cbn [fst g_insts].
+    apply (list_sum_upd_lt inst_measure _ _ x x' Hn). exact (inst_measure_step _ _ _ _ _ _ Hs).
+Qed.
+
+Lemma gstep_measure_le s c : (gmeasure (fst (gstep s c)) <= gmeasure s)%nat.
+Proof.
+  destruct (enabled s c) eqn:E.
+  - pose proof (gstep_measure_lt s c E). lia.
+  - rewrite (disabled_step_is_noop s c E). lia.
+Qed.
+
+Lemma grun_measure_le s sch : (gmeasure (grun s sch) <= gmeasure s)%nat.
+Proof.
+  revert s. induction sch as [|c sch IH]; intros s; cbn; [lia|].
+  pose proof (IH (fst (gstep s c))). pose proof (gstep_measure_le s c). lia.
+Qed.
+
+Lemma grun_app s a b : grun s (a ++ b) = grun (grun s a) b.
+Proof. revert s. induction a as [|c a IH]; intros s; cbn; [reflexivity|apply IH]. Qed.
+
+Lemma gstep_all_choices s c : all_choices (fst (gstep s c)) = all_choices s.
+Proof.
+  unfold all_choices. destruct (gstep_cases s c) as [(E & _ & _)|(x & st' & x' & o & Hn & Hs & E)]; rewrite E; [reflexivity|].
+  cbn [fst g_insts]. pose proof (istep_frame _ _ _ _ _ _ Hs) as (_ & FW & _).
+  rewrite (map_upd_same i_W _ _ x x' Hn FW). reflexivity.
+Qed.
+
+Lemma grun_all_choices s sch : all_choices (grun s sch) = all_choices s.
+Proof.
+  revert s. induction sch as [|c sch IH]; intros s; cbn; [reflexivity|]. rewrite IH. apply gstep_all_choices.
+Qed.
+
+Lemma in_choices_from i0 ws i w r : nth_error ws i = Some w -> (r < w)%nat -> In ((i0 + i)%nat, r) (choices_from i0 ws).
+Proof.
+  revert i0 i. induction ws as [|a ws IH]; intros i0 [|i] Hn Hr; cbn in *; try discriminate.
+  - inversion Hn. subst. apply in_or_app. left. rewrite Nat.add_0_r. apply in_map. apply in_seq. lia.
+  - apply in_or_app. right. replace (i0 + S i)%nat with (S i0 + i)%nat by lia. apply IH; assumption.
+Qed.
+
+(* a step outside all_choices is never enabled *)
+Lemma enabled_in_all_choices s c : enabled s c = true -> In c (all_choices s).
+Proof.
+  unfold enabled. destruct (gstep_cases s c) as [(_ & E & _)|(x & st' & x' & o & Hn & Hs & E)].
+  - rewrite E. discriminate.
+  - intros _. pose proof (istep_frame _ _ _ _ _ _ Hs) as (_ & _ & _ & _ & Hr & _).
+    destruct c as [i r]. cbn [fst snd] in *. unfold all_choices.
+    apply (in_choices_from 0 _ i (i_W x) r); [|exact Hr]. rewrite nth_error_map, Hn. reflexivity.
+Qed.
+
+Lemma run_round s l :
+  (gmeasure (grun s l) < gmeasure s)%nat \/ (grun s l = s /\ forall c, In c l -> enabled s c = false).
+Proof.
+  revert s. induction l as [|c l IH]; intros s; cbn [grun].
+  - right. split; [reflexivity|]. intros c [].
+  - destruct (enabled s c) eqn:E.
+    + left. pose proof (gstep_measure_lt s c E). pose proof (grun_measure_le (fst (gstep s c)) l). lia.
+    + rewrite (disabled_step_is_noop s c E). destruct (IH s) as [H|[H1 H2]]; [left; exact H|].
+      right. split; [exact H1|]. intros c' [<-|Hc']; auto.
+Qed.
+
+Lemma quiet_stays s sch : (forall c, enabled s c = false) -> grun s sch = s.
+Proof.
+  intros H. induction sch as [|c sch IH]; cbn; [reflexivity|]. rewrite (disabled_step_is_noop s c (H c)). exact IH.
+Qed.
+
+Lemma rounds_of_quiesce n : forall s, (gmeasure s < n)%nat ->
+  forall c, enabled (grun s (rounds_of (all_choices s) n)) c = false.
+Proof.
+  induction n as [|n IH]; intros s Hm c; [lia|]. cbn [rounds_of]. rewrite grun_app.
+  destruct (run_round s (all_choices s)) as [Hlt|[He Hq]].
+  - remember (grun s (all_choices s)) as s' eqn:Es.
+    assert (Ea : all_choices s = all_choices s') by (rewrite Es; symmetry; apply grun_all_choices).
+    rewrite Ea. apply IH. lia.
+  - assert (Hall : forall c', enabled s c' = false).
+    { intros c'. destruct (enabled s c') eqn:E; [|reflexivity].
+      rewrite (Hq c' (enabled_in_all_choices s c' E)) in E. discriminate. }
+    rewrite He, (quiet_stays s _ Hall). apply Hall.
+Qed.
+
+Lemma rounds_quiesce s : forall c, enabled (grun s (rounds s (S (gmeasure s)))) c = false.
+Proof. unfold rounds. apply rounds_of_quiesce. lia. Qed.
